@@ -23,9 +23,18 @@ def insertH (h : String × String) : List (String × String) → List (String ×
 
 def sortH (l : List (String × String)) : List (String × String) := l.foldr insertH []
 
-/-- what is recorded of a response, and hence what a duplicate must receive -/
+/-- fasthttp `ResponseHeader.ContentType()`: a response whose Content-Type was never set goes out with
+this one -/
+def defaultCT : String := "text/plain; charset=utf-8"
+
+/-- what is recorded of a response, and hence what a duplicate must receive: the kept headers among the
+watched ones; when `Content-Type` is watched and not among them (the handler did not set it, or
+KeepResponseHeaders drops it) the answer carries fasthttp's default Content-Type -/
 def record (keep : Option (List String)) (watched : List String) (r : Resp) : Resp :=
-  { r with hdrs := sortH (r.hdrs.filter fun h => kept keep h.1 && watched.contains h.1) }
+  let hs := r.hdrs.filter fun h => kept keep h.1 && watched.contains h.1
+  let hs := if watched.contains "Content-Type" && !hs.any (fun h => h.1 == "Content-Type") then
+      hs ++ [("Content-Type", defaultCT)] else hs
+  { r with hdrs := sortH hs }
 
 /-- events of a history, in the order they happened -/
 inductive Ev
